@@ -37,7 +37,7 @@ def run(ctx):
     tlc_file = ctx.path("tlc.ndjson")
     vlib.write_ndjson(tlc_file, res.replay)
     from props import c19
-    toks = c19._alphabet()
+    toks = c19._alphabet(big=not q)
     extra = toks + [[40] + t + [32, 120, 41] for t in toks] + [[40, 120, 32, 46, 32] + t + [41] for t in toks]
     out, tracep = common.harness_json(ctx, "c13", {"tlc_file": tlc_file, "extra_texts": extra, "trace_bytes": 300000 if q else 5000000,
                                                     "trace_stride": 7 if q else 211})
